@@ -51,12 +51,49 @@ func vfRandAfts(r *rand.Rand) *aftpb.Afts {
 		}
 		return 0
 	}
-	undefOnly := func() enums.OpenconfigAftTypesEncapsulationHeaderType {
-		// defined non-zero values of this field are outside the model
-		if v := en(); v < 0 || v > 8 {
-			return v
+	ip := func() *wpb.StringValue {
+		return &wpb.StringValue{Value: []string{"192.0.2.1", "0.0.0.0", "255.255.255.255", "2001:db8::1", "2001:DB8::1", "::", "::1", "1:2:3:4:5:6:7:8", "1::8", "fe80::1",
+			"", "1.2.3", "300.1.1.1", "01.2.3.4", "1.2.3.4/32", "fe80::1%eth0", "::ffff:1.2.3.4", "x", " 1.2.3.4", "1.2.3.4 ", "2001:db8::g", "1:2:3:4:5:6:7:8:9", "1.2.3.4\n", "x\n::1\ny"}[r.Intn(24)]}
+	}
+	mac := func() *wpb.StringValue {
+		return &wpb.StringValue{Value: []string{"00:11:22:33:44:55", "AA:BB:CC:DD:EE:FF", "aa:bb:cc:dd:ee:ff", "", "00:11:22:33:44", "0:1:2:3:4:5", "00-11-22-33-44-55", "gg:11:22:33:44:55", "00:11:22:33:44:55:66"}[r.Intn(9)]}
+	}
+	labels := []uint64{0, 3, 15, 16, 100, 200, 1048575, 1048576, 1 << 32, 1<<32 + 100}
+	// extended payload of a next-hop (address, MAC, interface reference, IP-in-IP, pushed label stack)
+	nhx := func(n *aftpb.Afts_NextHop) {
+		if r.Intn(3) == 0 {
+			n.IpAddress = ip()
 		}
-		return 0
+		if r.Intn(4) == 0 {
+			n.MacAddress = mac()
+		}
+		if r.Intn(3) == 0 {
+			n.InterfaceRef = &aftpb.Afts_NextHop_InterfaceRef{}
+			if r.Intn(3) != 0 {
+				n.InterfaceRef.Interface = &wpb.StringValue{Value: []string{"eth0", "", "Ethernet1/1", "x y"}[r.Intn(4)]}
+			}
+			if r.Intn(2) == 0 {
+				n.InterfaceRef.Subinterface = &wpb.UintValue{Value: []uint64{0, 1, 7, 1<<32 - 1, 1 << 32, 1 << 40}[r.Intn(6)]}
+			}
+		}
+		if r.Intn(4) == 0 {
+			n.IpInIp = &aftpb.Afts_NextHop_IpInIp{}
+			if r.Intn(3) != 0 {
+				n.IpInIp.SrcIp = ip()
+			}
+			if r.Intn(3) != 0 {
+				n.IpInIp.DstIp = ip()
+			}
+		}
+		if r.Intn(3) == 0 {
+			for i, k := 0, 1+r.Intn(3); i < k; i++ {
+				l := labels[3+r.Intn(4)]
+				if r.Intn(6) == 0 {
+					l = labels[r.Intn(len(labels))]
+				}
+				n.PushedMplsLabelStack = append(n.PushedMplsLabelStack, &aftpb.Afts_NextHop_PushedMplsLabelStackUnion{PushedMplsLabelStackUint64: l})
+			}
+		}
 	}
 	a := &aftpb.Afts{}
 	switch r.Intn(5) {
@@ -64,14 +101,14 @@ func vfRandAfts(r *rand.Rand) *aftpb.Afts {
 		p := []string{"1.1.1.1/32", "10.0.0.0/8", "", "1.1.1.1", "300.1.1.1/32", "1.1.1.1/33", "2001:db8::/32", "0.0.0.0/0", "01.1.1.1/32"}[r.Intn(9)]
 		e := &aftpb.Afts_Ipv4EntryKey{Prefix: p}
 		if r.Intn(5) != 0 {
-			e.Ipv4Entry = &aftpb.Afts_Ipv4Entry{NextHopGroup: u(), NextHopGroupNetworkInstance: s(), EntryMetadata: md(), DecapsulateHeader: undefOnly()}
+			e.Ipv4Entry = &aftpb.Afts_Ipv4Entry{NextHopGroup: u(), NextHopGroupNetworkInstance: s(), EntryMetadata: md(), DecapsulateHeader: en()}
 		}
 		a.Ipv4Entry = append(a.Ipv4Entry, e)
 	case 1:
 		p := []string{"2001:db8::/32", "::/0", "", "1.1.1.1/32", "2001:db8::1", "2001:db8::/129", "2001:DB8::/64", "::ffff:1.2.3.4/128", "fe80::1%eth0/64"}[r.Intn(9)]
 		e := &aftpb.Afts_Ipv6EntryKey{Prefix: p}
 		if r.Intn(5) != 0 {
-			e.Ipv6Entry = &aftpb.Afts_Ipv6Entry{NextHopGroup: u(), NextHopGroupNetworkInstance: s(), EntryMetadata: md(), DecapsulateHeader: undefOnly()}
+			e.Ipv6Entry = &aftpb.Afts_Ipv6Entry{NextHopGroup: u(), NextHopGroupNetworkInstance: s(), EntryMetadata: md(), DecapsulateHeader: en()}
 		}
 		a.Ipv6Entry = append(a.Ipv6Entry, e)
 	case 2:
@@ -84,6 +121,15 @@ func vfRandAfts(r *rand.Rand) *aftpb.Afts {
 		}
 		if r.Intn(5) != 0 {
 			e.LabelEntry = &aftpb.Afts_LabelEntry{NextHopGroup: u(), NextHopGroupNetworkInstance: s(), EntryMetadata: md()}
+			if r.Intn(3) == 0 {
+				for i, k := 0, 1+r.Intn(3); i < k; i++ {
+					l := labels[3+r.Intn(4)]
+					if r.Intn(6) == 0 {
+						l = labels[r.Intn(len(labels))]
+					}
+					e.LabelEntry.PoppedMplsLabelStack = append(e.LabelEntry.PoppedMplsLabelStack, &aftpb.Afts_LabelEntry_PoppedMplsLabelStackUnion{PoppedMplsLabelStackUint64: l})
+				}
+			}
 		}
 		a.LabelEntry = append(a.LabelEntry, e)
 	case 3:
@@ -107,6 +153,7 @@ func vfRandAfts(r *rand.Rand) *aftpb.Afts {
 			if r.Intn(3) == 0 {
 				e.NextHop.PopTopLabel = &wpb.BoolValue{Value: r.Intn(2) == 0}
 			}
+			nhx(e.NextHop)
 		}
 		a.NextHop = append(a.NextHop, e)
 	}
